@@ -25,6 +25,7 @@ bool unit_controls(const amgcl::backend::crs<double> &A) { return verif_control:
 int unit_rbm(const std::vector<double> &coo, std::vector<double> &B) { return amgcl::coarsening::rigid_body_modes(3, coo, B); }
 void unit_moves() {
     amgcl::backend::crs<double> a; amgcl::backend::crs<double> b(std::move(a)); a = std::move(b);
+    amgcl::backend::crs<double> c; c = a;     // copy assignment (C.own-only-allocated)
     amgcl::backend::numa_vector<double> v(4), w(4); v.swap(w);
 }
 
@@ -38,3 +39,9 @@ inline long rmerge_leaves_one(const long *acol, const long *acol_end, const long
 }
 }
 long unit_control_rmerge(const long *c, const long *e, const long *p) { return verif_control::rmerge_leaves_one(c, e, p); }
+
+namespace verif_control {
+// C.own-only-allocated must report this function: the ownership flag is raised over arrays the matrix did not allocate here
+inline void adopt(amgcl::backend::crs<double> &A) { A.own_data = true; A.free_data(); }
+}
+void unit_control_adopt(amgcl::backend::crs<double> &A) { verif_control::adopt(A); }
